@@ -29,7 +29,9 @@ fn main() {
             *g = info.location().map(|l| format!("{}:{}", l.file(), l.line()));
         }
         // a panic outside any simulation is the harness's own (driver, worker bookkeeping): never silent
-        if std::env::var_os("VERIF_PANIC_VERBOSE").is_some() || !detsim::in_sim() {
+        // (panics the harness raises on purpose as injected faults carry a "harness:" payload)
+        let injected = info.payload().downcast_ref::<&str>().map(|s| s.starts_with("harness:")).unwrap_or(false);
+        if std::env::var_os("VERIF_PANIC_VERBOSE").is_some() || (!detsim::in_sim() && !injected) {
             eprintln!("panic: {info}");
         }
     }));
